@@ -444,7 +444,7 @@ def _from_capture(lib, cap, b, op, depth=0, seen=None):
     return False
 
 
-@rule("R09.10", 2, "what a reader has produced so far is presented as the complete in-memory input only on evidence that the source is exhausted (the EOF flag, or a drain to the end that succeeded)", ["C09", "C02", "C03"])
+@rule("R09.10", 2, "what a reader has produced so far is presented as the complete in-memory input only on evidence that the source is exhausted (the EOF flag, or a drain to the end that succeeded)", ["C09", "C02", "C03", "C14"])
 def r09_10(ctx):
     lib = ctx.lib
     cap, guard = _capture_adts(lib)
@@ -981,7 +981,64 @@ def _short_of_take_limit(b, read_call, at_bb):
     return False
 
 
-@rule("R09.6", 4, "the capture reader marks end-of-input only on evidence of EOF from a successful source read (never on a short read or an error edge)", ["C09", "C12", "C03", "C02", "C10"])
+def _source_reads(b, src_fields):
+    """[(block, terminator, method, through a Take)] of the io::Read calls of body b on the capture reader's source."""
+    ok_edges = []
+    for cb, ct in b.calls():
+        f = fn_of(ct) or {}
+        if f.get("trait") == "std::io::Read" and f["name"] in ("read", "read_to_end", "read_exact", "read_to_string"):
+            rtr = trace(b, ct["args"][0], passthrough_extra=("std::io::Read::take",))
+            on_source = any(st[0] == "field" and st[1] in src_fields for st in rtr.steps)
+            is_take = "std::io::Take<" in (f.get("self_ty") or "")
+            if not on_source and is_take:
+                # Take of the source
+                for tb, tt in b.calls():
+                    if (fn_of(tt) or {}).get("def") == "std::io::Read::take":
+                        t2 = trace(b, tt["args"][0], passthrough_extra=("std::io::Read::by_ref",))
+                        if any(st[0] == "field" and st[1] in src_fields for st in t2.steps):
+                            on_source = True
+            if on_source:
+                ok_edges.append((cb, ct, f["name"], is_take))
+    return ok_edges
+
+
+def _is_source_read_count(lib, b, op, src_fields, depth=0):
+    """`op` is the byte count of a successful `read` of the source: the Ok payload of that call, here or in a
+    same-crate helper every Ok return of which hands back such a count (`let n = self.read_and_capture(buf)?`)."""
+    tr = trace(b, op, passthrough_extra=("std::ops::Try::branch",))
+    if not (tr.origin and tr.origin[0] == "call" and any(st[0] == "downcast" and st[1] in ("Continue", "Ok") for st in tr.steps)):
+        return False
+    src = tr.origin[2]
+    if any(src is e[1] and e[2] == "read" for e in _source_reads(b, src_fields)):
+        return True
+    f = fn_of(src) or {}
+    callee = lib.by_id.get(f.get("resolved") or f.get("def")) if f.get("local") else None
+    if callee is None or depth >= 2 or callee.id == b.id:
+        return False
+    good = 0
+    for db, _, kind, payload in callee.whole_defs(0):
+        if kind == "call":
+            if (fn_of(payload) or {}).get("def") == "std::ops::FromResidual::from_residual":
+                continue
+            return False
+        if kind != "assign":
+            return False
+        rv = payload["rv"]
+        if rv["k"] == "aggregate" and rv.get("variant") == "Err":
+            continue
+        if rv["k"] == "aggregate" and rv.get("variant") == "Ok" and len(rv["ops"]) == 1 and _is_source_read_count_ok(lib, callee, rv["ops"][0], src_fields, depth + 1):
+            good += 1
+            continue
+        return False
+    return good > 0
+
+
+def _is_source_read_count_ok(lib, b, op, src_fields, depth):
+    """Inside the helper the count is already unwrapped (`let size = self.source.read(buf)?; .. Ok(size)`)."""
+    return _is_source_read_count(lib, b, op, src_fields, depth)
+
+
+@rule("R09.6", 3, "the capture reader marks end-of-input only on evidence of EOF from a successful source read (never on a short read or an error edge)", ["C09", "C12", "C03", "C02", "C10", "C14"])
 def r09_6(ctx):
     lib = ctx.lib
     cap, guard = _capture_adts(lib)
@@ -1000,22 +1057,7 @@ def r09_6(ctx):
                 rv = s["rv"]
                 key = f"eof-write:{b.name}"
                 # successful source reads in this body: (call block, Ok/Continue edge)
-                ok_edges = []
-                for cb, ct in b.calls():
-                    f = fn_of(ct) or {}
-                    if f.get("trait") == "std::io::Read" and f["name"] in ("read", "read_to_end", "read_exact", "read_to_string"):
-                        rtr = trace(b, ct["args"][0], passthrough_extra=("std::io::Read::take",))
-                        on_source = any(st[0] == "field" and st[1] in src_fields for st in rtr.steps)
-                        is_take = "std::io::Take<" in (f.get("self_ty") or "")
-                        if not on_source and is_take:
-                            # Take of the source
-                            for tb, tt in b.calls():
-                                if (fn_of(tt) or {}).get("def") == "std::io::Read::take":
-                                    t2 = trace(b, tt["args"][0], passthrough_extra=("std::io::Read::by_ref",))
-                                    if any(st[0] == "field" and st[1] in src_fields for st in t2.steps):
-                                        on_source = True
-                        if on_source:
-                            ok_edges.append((cb, ct, f["name"], is_take))
+                ok_edges = _source_reads(b, src_fields)
                 if rv["k"] == "use" and rv["op"].get("k") == "const":
                     if rv["op"].get("v") is False:
                         ctx.ob(key + ":false", True, site(b, line=s["line"]), "flag cleared", trivial=True)
@@ -1052,12 +1094,10 @@ def r09_6(ctx):
                         good = True
                     ctx.ob(key + ":true-after-read_to_end", good, site(b, line=s["line"]), "EOF recorded after read_to_end returned Ok" + (" with unused limit" if good and any(e[3] for e in ok_edges) else "") if good else why)
                 elif rv["k"] == "binop" and rv["op"] == "Eq" and const_value(rv["b"]) == 0:
-                    tr = trace(b, rv["a"])
-                    src = tr.origin[2] if tr.origin and tr.origin[0] == "call" else None
-                    good = bool(src and any(src is e[1] and e[2] == "read" for e in ok_edges) and any(st[0] == "downcast" and st[1] in ("Continue", "Ok") for st in tr.steps))
+                    good = _is_source_read_count(lib, b, rv["a"], src_fields)
                     ctx.ob(key + ":zero-length-read", good, site(b, line=s["line"]), "EOF iff the source's read returned Ok(0)" if good else "EOF derived from something other than the source read's Ok(0)")
                 elif rv["k"] == "use" and is_place(rv["op"]) and _is_empty_of_read_prefix(b, rv["op"], ok_edges):
                     ctx.ob(key + ":zero-length-read", True, site(b, line=s["line"]), "EOF iff the part of the buffer the source's read filled is empty (the read returned Ok(0))")
                 else:
                     ctx.ob(key + ":unrecognised", False, site(b, line=s["line"]), f"end-of-input flag computed by `{rv['k']} {rv.get('op', '')}`: not one of the recognised EOF tests (Ok(0) from read; Ok from read_to_end) — a short read is not EOF")
-    ctx.ob("eof-flag-writes", n >= 3, cap, f"{n} write(s) to `{flag}`")
+    ctx.ob("eof-flag-writes", n >= 2, cap, f"{n} write(s) to `{flag}`")
